@@ -139,9 +139,84 @@ def burst(ctx, res):
                 res.oracle_failures.append({"input": inp, "what": "%d peers connecting at the same moment to a server that admits %d: %s" % (n, limit, "; ".join(bad)), "signature": "C10:burst-of-connects"})
 
 
+async def _tls_sessions(limit):
+    """a server started with `ssl=` (its own certificate authority, made on the spot) on the loopback interface:
+    sessions that end by QUIT, by the peer going away and by a refusal all give their slots back, as without TLS"""
+    import asyncio
+    import ssl
+
+    import aioftp
+    import trustme
+
+    ca = trustme.CA()
+    cert = ca.issue_cert("127.0.0.1", "localhost")
+    sctx = ssl.create_default_context(ssl.Purpose.CLIENT_AUTH)
+    cert.configure_cert(sctx)
+    cctx = ssl.create_default_context(ssl.Purpose.SERVER_AUTH)
+    ca.configure_trust(cctx)
+    users = [aioftp.User("bob", "pw", maximum_connections=limit)]
+    server = aioftp.Server(users, maximum_connections=limit, ssl=sctx)
+    await server.start("127.0.0.1", 0)
+    out = []
+
+    async def session(lines, end):
+        r, w = await asyncio.wait_for(asyncio.open_connection("127.0.0.1", server.server_port, ssl=cctx, server_hostname="localhost"), 5)
+        codes = [(await asyncio.wait_for(r.readline(), 3))[:3].decode()]
+        for line in lines:
+            w.write(line + b"\r\n")
+            codes.append((await asyncio.wait_for(r.readline(), 3))[:3].decode())
+        if end == "abort":
+            w.transport.abort()
+        else:
+            w.close()
+        await asyncio.sleep(0.1)
+        return codes
+
+    try:
+        for k, (lines, end) in enumerate([([b"USER bob", b"PASS pw", b"QUIT"], "close"), ([b"USER bob", b"PASS pw"], "close"), ([b"USER bob", b"PASS pw", b"PWD"], "abort"),
+                                          ([b"USER bob", b"PASS wrong", b"QUIT"], "close"), ([b"USER bob", b"PASS pw", b"QUIT"], "close"), ([b"USER bob", b"PASS pw", b"QUIT"], "close")]):
+            try:
+                codes = await session(lines, end)
+            except Exception as e:  # noqa
+                codes = ["%s" % type(e).__name__]
+            um = server.user_manager
+            out.append({"session": k, "codes": codes, "server_free": server.available_connections.value, "user_free": um.available_connections[users[0]].value})
+    finally:
+        try:
+            await asyncio.wait_for(server.close(), 5)
+            out.append({"close": "ok"})
+        except Exception as e:  # noqa
+            out.append({"close": type(e).__name__})
+    return out
+
+
+def tls(ctx, res):
+    import asyncio
+
+    try:
+        import trustme  # noqa: F401
+    except ImportError:
+        res.count("tls_sessions:skipped(no trustme)")
+        return
+    for limit in (2, 1):
+        res.cases += 1
+        res.count("tls_sessions")
+        res.distinct.add(("tls", limit))
+        inp = {"kind": "tls-sessions", "maximum_connections": limit}
+        try:
+            out = asyncio.run(asyncio.wait_for(_tls_sessions(limit), 60))
+        except Exception as e:  # noqa
+            res.disagreements.append({"correspondence": "tls harness", "input": inp, "impl": "%s: %s" % (type(e).__name__, e)})
+            continue
+        bad = [o for o in out if ("server_free" in o and (o["server_free"] != limit or o["user_free"] != limit or o["codes"][0] != "220")) or o.get("close", "ok") != "ok"]
+        if bad:
+            res.oracle_failures.append({"input": inp, "what": "a server started with ssl=, admitting %d: after each session every slot must be back and the next peer greeted with 220; first deviation: %r" % (limit, bad[0]), "signature": "C10:tls-sessions-keep-their-slots"})
+
+
 def run(ctx):
     res = Result()
     burst(ctx, res)
+    tls(ctx, res)
     N = SC.run_scenario(SCEN)["iterations"]
     jobs = []
     for kind in ("vanish", "close"):
@@ -165,6 +240,14 @@ def run(ctx):
 
 
 def replay(inp):
+    if inp.get("kind") == "tls-sessions":
+        import asyncio
+
+        out = asyncio.run(_tls_sessions(inp["maximum_connections"]))
+        for o in out:
+            print(o)
+        limit = inp["maximum_connections"]
+        return any(("server_free" in o and (o["server_free"] != limit or o["user_free"] != limit or o["codes"][0] != "220")) or o.get("close", "ok") != "ok" for o in out)
     if inp.get("kind") == "burst":
         o = _burst_job((inp["maximum_connections"], inp["simultaneous_connects"], inp["admitted_quit"]))
         print(o)
